@@ -1,3 +1,140 @@
 package main
 
-func sweepVariants(root, repo, prop string) {}
+import (
+	"encoding/json"
+	"fmt"
+	"os"
+	"os/exec"
+	"path/filepath"
+	"sort"
+	"strings"
+	"sync"
+)
+
+type sweepResult struct {
+	ID       string `json:"id"`
+	Note     string `json:"note"`
+	Outcome  string `json:"outcome"` // detected | missed | context-changed | error
+	ByRules  string `json:"by_rules,omitempty"`
+	Expected string `json:"expected_rules,omitempty"`
+}
+
+// sweepVariants applies every stored variant that names this property through an in-memory
+// overlay (one subprocess per variant, at most 8 in parallel) and records detected/total in the
+// evidence file. It never changes the exit status: only the unmodified tree's verdict does.
+func sweepVariants(root, repo, prop string) {
+	files, _ := filepath.Glob(filepath.Join(root, "variants", "*.json"))
+	sort.Strings(files)
+	var todo []string
+	meta := map[string]variantFile{}
+	for _, f := range files {
+		b, err := os.ReadFile(f)
+		if err != nil {
+			continue
+		}
+		var vf variantFile
+		if json.Unmarshal(b, &vf) != nil {
+			continue
+		}
+		for _, p := range vf.Properties {
+			if p == prop {
+				todo = append(todo, f)
+				meta[f] = vf
+			}
+		}
+	}
+	if len(todo) == 0 {
+		return
+	}
+	exe, _ := os.Executable()
+	results := make([]sweepResult, len(todo))
+	sem := make(chan struct{}, 8)
+	var wg sync.WaitGroup
+	for i, f := range todo {
+		wg.Add(1)
+		go func(i int, f string) {
+			defer wg.Done()
+			sem <- struct{}{}
+			defer func() { <-sem }()
+			vf := meta[f]
+			cmd := exec.Command(exe, "-p", prop, "-tier", "quick", "-repo", repo, "-variant", f, "-noevidence")
+			out, err := cmd.CombinedOutput()
+			r := sweepResult{ID: vf.ID, Note: vf.Note, Expected: strings.Join(vf.Rules, ",")}
+			code := 0
+			if ee, ok := err.(*exec.ExitError); ok {
+				code = ee.ExitCode()
+			} else if err != nil {
+				code = -1
+			}
+			switch code {
+			case 1:
+				r.Outcome = "detected"
+				rules := map[string]bool{}
+				for _, line := range strings.Split(string(out), "\n") {
+					if strings.HasPrefix(line, "FINDING ") {
+						for _, fld := range strings.Fields(line) {
+							if strings.HasPrefix(fld, "rule=") {
+								rules[strings.TrimPrefix(fld, "rule=")] = true
+							}
+						}
+					}
+				}
+				var rs []string
+				for k := range rules {
+					rs = append(rs, k)
+				}
+				sort.Strings(rs)
+				r.ByRules = strings.Join(rs, ",")
+			case 0:
+				r.Outcome = "missed"
+			case 3:
+				r.Outcome = "context-changed"
+			default:
+				r.Outcome = "error"
+				r.ByRules = lastLine(string(out))
+			}
+			results[i] = r
+		}(i, f)
+	}
+	wg.Wait()
+	detected, applicable := 0, 0
+	for _, r := range results {
+		if r.Outcome == "context-changed" {
+			continue
+		}
+		applicable++
+		if r.Outcome == "detected" {
+			detected++
+		}
+	}
+	fmt.Printf("%s: variant sweep: %d/%d seeded variants detected (%d skipped: context changed)\n", prop, detected, applicable, len(results)-applicable)
+	for _, r := range results {
+		if r.Outcome != "detected" {
+			fmt.Printf("  variant %s: %s %s\n", r.ID, r.Outcome, r.ByRules)
+		}
+	}
+	// merge into the evidence file
+	evp := filepath.Join(root, "evidence", prop+".json")
+	b, err := os.ReadFile(evp)
+	if err != nil {
+		return
+	}
+	var ev map[string]any
+	if json.Unmarshal(b, &ev) != nil {
+		return
+	}
+	cov, _ := ev["coverage"].(map[string]any)
+	if cov == nil {
+		return
+	}
+	cov["variants_seeded"] = applicable
+	cov["variants_detected"] = detected
+	cov["variants"] = results
+	nb, _ := json.MarshalIndent(ev, "", " ")
+	os.WriteFile(evp, nb, 0o644)
+}
+
+func lastLine(s string) string {
+	ls := strings.Split(strings.TrimSpace(s), "\n")
+	return ls[len(ls)-1]
+}
